@@ -526,6 +526,15 @@ impl Runner {
             "merge" => crate::misc::cmd_merge(self, &t),
             "corrupt" => self.cmd_corrupt(&t),
             "hdr" => self.cmd_hdr(&t),
+            "enc" => {
+                // reference encoder of the harness; the model side prints Spec.encodeFst
+                let v: u64 = t[1].parse().unwrap();
+                let ty: u64 = t[2].parse().unwrap();
+                let style: u8 = t[3].parse().unwrap();
+                let share = t[4] == "1";
+                let kv = parse_kvs(t.get(5).copied().unwrap_or("."));
+                format!("enc {}", show_bytes(&crate::refenc::encode(v, ty, &kv, style, share)))
+            }
             "open" => self.cmd_open(&t),
             "foot" => crate::extra::cmd_foot(self, &t),
             "stats" => crate::extra::cmd_stats(self, &t),
